@@ -639,3 +639,125 @@ func dependsOnSelectNames(w *World, v ssa.Value, colName *types.Var, depth int) 
 		return false
 	})
 }
+
+func init() {
+	reg("C11-R5", "join keys are resolved in the schema in which the executor evaluates them: the optimizer builds hash-join keys against the very child plan they are evaluated on (ConvColumnStrsToExpIfOnes(child) with child = the plan passed as that side), and the right key of an index join against the table definition (child = nil), because IndexJoinExecutor interprets its column index in the catalog schema of the right table; the hash-join cursor over a bucket only moves relative to its previous position or restarts at 0 (every entry of a bucket is examined: two build-side keys may share a hash value)", func(w *World, r *Report) {
+		conv := w.FuncObj("parser", "ConvColumnStrsToExpIfOnes")
+		hj := w.FuncObj("execution/plans", "NewHashJoinPlanNodeWithChilds")
+		ij := w.FuncObj("execution/plans", "NewIndexJoinPlanNode")
+		convCalls := func(v ssa.Value) []*ssa.Call {
+			var out []*ssa.Call
+			DependsOn(v, func(x ssa.Value) bool {
+				if c, ok := x.(*ssa.Call); ok && CalleeObj(c) == conv {
+					out = append(out, c)
+				}
+				return false
+			})
+			return out
+		}
+		isNil := func(v ssa.Value) bool { c, ok := v.(*ssa.Const); return ok && c.IsNil() }
+		check := func(key string, site *ssa.Call, keysArg ssa.Value, want ssa.Value, what string) {
+			cs := convCalls(keysArg)
+			good := len(cs) > 0
+			for _, c := range cs {
+				child := c.Call.Args[1]
+				if want == nil {
+					good = good && isNil(child)
+				} else {
+					good = good && child == want
+				}
+			}
+			r.Check(good, key, "the keys are resolved against "+what, fmt.Sprintf("keys passed at %s are resolved against another schema than the one the executor evaluates them in", w.InstrPos(site)))
+		}
+		nHJ, nIJ := 0, 0
+		for _, fn := range w.RepoFuncs {
+			if w.IsTestFunc(fn) {
+				continue
+			}
+			EachCall(fn, func(ci ssa.CallInstruction) {
+				c, ok := ci.(*ssa.Call)
+				if !ok {
+					return
+				}
+				switch CalleeObj(c) {
+				case hj:
+					nHJ++
+					k := funcKey(topFunc(fn)) + ":hash-join" + ordinalIn(fn, c, hj)
+					check(k+":left-keys", c, c.Call.Args[1], c.Call.Args[0], "the left child plan")
+					check(k+":right-keys", c, c.Call.Args[3], c.Call.Args[2], "the right child plan")
+				case ij:
+					nIJ++
+					k := funcKey(topFunc(fn)) + ":index-join" + ordinalIn(fn, c, ij)
+					check(k+":left-keys", c, c.Call.Args[2], c.Call.Args[1], "the left child plan")
+					check(k+":right-keys", c, c.Call.Args[5], nil, "the table definition of the right table (child = nil)")
+				}
+			})
+		}
+		r.Floor("NewHashJoinPlanNodeWithChilds sites", nHJ, 1)
+		r.Floor("NewIndexJoinPlanNode sites", nIJ, 1)
+		// ConvColumnStrsToExpIfOnes: child nil -> catalog schema, else child's output schema
+		cf := w.SSA(conv)
+		var childP *ssa.Parameter
+		for _, p := range cf.Params {
+			if p.Name() == "childPlan" {
+				childP = p
+			}
+		}
+		outSchema := w.MethodObj("execution/plans", "Plan", "OutputSchema")
+		tblSchema := w.MethodObj("catalog", "TableMetadata", "Schema")
+		if childP == nil {
+			fatalf("ConvColumnStrsToExpIfOnes has no childPlan parameter")
+		}
+		isChild := func(v ssa.Value) bool { return resolveCell(v) == ssa.Value(childP) }
+		wit := (&PathQ{Fn: cf, Cut: []EdgeCut{nilCompareCut(isChild, false)}, Target: InstrCallsObj(outSchema)}).FromEntry()
+		r.Check(wit == nil, "ConvColumnStrsToExpIfOnes:nil-child-uses-table-definition", "with child = nil the column index is looked up in the table definition", "OutputSchema reachable with child = nil: "+w.DescribeWitness(cf, wit))
+		wit = (&PathQ{Fn: cf, Cut: []EdgeCut{nilCompareCut(isChild, true)}, Target: InstrCallsObj(tblSchema)}).FromEntry()
+		r.Check(wit == nil, "ConvColumnStrsToExpIfOnes:child-uses-its-output-schema", "with a child plan the column index is looked up in its output schema", "catalog schema reachable with a child plan: "+w.DescribeWitness(cf, wit))
+		// consumer: IndexJoinExecutor.Init hands the right key's column index to the point scan together with the catalog schema
+		ini := w.Fn("execution/executors", "IndexJoinExecutor", "Init")
+		mk := w.FuncObj("execution/executors", "makePointScanPlanNodeForJoin")
+		n := 0
+		EachCall(ini, func(ci ssa.CallInstruction) {
+			if CalleeObj(ci) != mk {
+				return
+			}
+			n++
+			args := ci.Common().Args
+			var scArg ssa.Value
+			for _, x := range args {
+				if strings.HasSuffix(x.Type().String(), "schema.Schema") {
+					scArg = x
+				}
+			}
+			fromCatalog := scArg != nil && DependsOn(scArg, IsCallTo(tblSchema))
+			fromPlan := scArg != nil && DependsOn(scArg, func(x ssa.Value) bool {
+				c, ok := x.(ssa.CallInstruction)
+				return ok && CalleeObj(c) != nil && CalleeObj(c).Name() == "OutputSchema"
+			})
+			r.Check(fromCatalog && !fromPlan, "IndexJoinExecutor.Init:right-key-index-read-in-table-definition", "the executor interprets the right key's column index in the catalog schema of the right table", "schema passed to the point scan at "+w.InstrPos(ci)+" is not the table definition")
+		})
+		r.Floor("point-scan constructions in IndexJoinExecutor.Init", n, 1)
+		// hash-join bucket cursor
+		hn := w.Fn("execution/executors", "HashJoinExecutor", "Next")
+		idx := w.Field("execution/executors", "HashJoinExecutor", "index")
+		ns := 0
+		for _, b := range hn.Blocks {
+			for _, in := range b.Instrs {
+				st, ok := in.(*ssa.Store)
+				if !ok || !isFieldAddrOf(st.Addr, idx) {
+					continue
+				}
+				ns++
+				cv, isConst := constOf(st.Val)
+				zero := false
+				if isConst {
+					iv, _ := constant.Int64Val(constant.ToInt(cv))
+					zero = iv == 0
+				}
+				rel := DependsOn(st.Val, func(x ssa.Value) bool { return fieldLoadOf(x, idx) })
+				r.Check(zero || rel, "HashJoinExecutor.Next:bucket-cursor-moves-stepwise"+storeOrdinal(hn, st, idx), "the cursor over the bucket restarts at 0 or moves relative to its previous position", "store at "+w.InstrPos(st)+" jumps the bucket cursor to a value unrelated to its previous position: the remaining entries of the bucket (other keys with the same hash value may sit in front of matching ones) are skipped")
+			}
+		}
+		r.Floor("stores to HashJoinExecutor.index in Next", ns, 2)
+	})
+}
